@@ -26,14 +26,18 @@ func Over(tt *testing.T, transport string, h http.Handler, f func(hc connect.HTT
 			return nil
 		})
 	default:
-		mem := &memnet.Mem{Handler: h}
-		if transport == "mem1" {
-			mem.ProtoMajor = 1
-		}
-		f(mem, mem)
-		if ex := mem.Last(); ex != nil {
-			<-ex.HandlerDone()
-		}
-		return nil
+		// also inside a bubble: if a defect makes both sides wait for each
+		// other, the bubble reports a deadlock instead of hanging the test
+		return pbt.Bubble(tt, func() error {
+			mem := &memnet.Mem{Handler: h}
+			if transport == "mem1" {
+				mem.ProtoMajor = 1
+			}
+			f(mem, mem)
+			if ex := mem.Last(); ex != nil {
+				<-ex.HandlerDone()
+			}
+			return nil
+		})
 	}
 }
